@@ -86,8 +86,14 @@ func (c *FnCtx) call(in ssa.CallInstruction, cc *ssa.CallCommon) Val {
 	case *ssa.MakeClosure:
 		callee = f.Fn.(*ssa.Function)
 		for i, b := range f.Bindings {
-			extra = append(extra, c.val(b))
-			extraNames = append(extraNames, callee.FreeVars[i].Name())
+			bv := c.val(b)
+			fv := callee.FreeVars[i]
+			if pt := derefType(fv.Type()); pt != nil && !strings.HasSuffix(callee.Name(), "$bound") {
+				// captured variable: contracts of the closure talk about its content
+				bv = c.loadLoc(st, c.ptrLoc(bv.T, pt, false))
+			}
+			extra = append(extra, bv)
+			extraNames = append(extraNames, fv.Name())
 		}
 	}
 	if callee == nil {
